@@ -43,15 +43,19 @@ Proof. intros H. apply sprefix_length in H. cbn in H. lia. Qed.
 Lemma read_word_app n z rest :
   read_word n (bits_of_Z n z ++ rest) = Ok (z mod 2 ^ Z.of_nat n, rest).
 Proof.
-  unfold read_word. rewrite app_length, bits_of_Z_length.
-  destruct (Nat.ltb_spec (n + length rest) n) as [H|H]; [lia|].
-  rewrite <- (bits_of_Z_length n z) at 1 3.
-  rewrite firstn_app, firstn_all, Nat.sub_diag, skipn_app, skipn_all, Nat.sub_diag.
-  cbn [firstn skipn app]. rewrite app_nil_r, Z_of_bits_of_Z. reflexivity.
+  unfold read_word.
+  assert (Hf : firstn n (bits_of_Z n z ++ rest) = bits_of_Z n z).
+  { rewrite <- (bits_of_Z_length n z) at 1. rewrite firstn_app, firstn_all, Nat.sub_diag. cbn [firstn]. apply app_nil_r. }
+  rewrite Hf, bits_of_Z_length, Nat.ltb_irrefl.
+  assert (Hs : skipn n (bits_of_Z n z ++ rest) = rest).
+  { rewrite <- (bits_of_Z_length n z) at 1. rewrite skipn_app, skipn_all, Nat.sub_diag. reflexivity. }
+  rewrite Hs, Z_of_bits_of_Z. reflexivity.
 Qed.
 
 Lemma read_word_short n p : (length p < n)%nat -> read_word n p = Raise Overrun.
-Proof. intros H. unfold read_word. apply Nat.ltb_lt in H. now rewrite H. Qed.
+Proof.
+  intros H. unfold read_word. rewrite firstn_all2 by lia. apply Nat.ltb_lt in H. now rewrite H.
+Qed.
 
 Lemma read_word_sprefix n z p : sprefix p (bits_of_Z n z) -> read_word n p = Raise Overrun.
 Proof. intros H. apply sprefix_length in H. rewrite bits_of_Z_length in H. now apply read_word_short. Qed.
